@@ -330,7 +330,7 @@ impl Scenario for C03 {
     const ID: &'static str = "C03";
     const LEVEL: &'static str = "exploration";
     fn runs(tier: Tier) -> u64 {
-        tier.pick(6_000, 400_000)
+        tier.pick(300_000, 20_000_000)
     }
     fn profiles() -> &'static [Profile] {
         &[Profile::Release]
@@ -519,7 +519,7 @@ impl Scenario for C04 {
     const ID: &'static str = "C04";
     const LEVEL: &'static str = "exploration";
     fn runs(tier: Tier) -> u64 {
-        tier.pick(2_000, 200_000)
+        tier.pick(100_000, 6_000_000)
     }
     fn profiles() -> &'static [Profile] {
         &[Profile::Release]
@@ -741,7 +741,7 @@ impl Scenario for C06 {
     const ID: &'static str = "C06";
     const LEVEL: &'static str = "exploration";
     fn runs(tier: Tier) -> u64 {
-        tier.pick(6_000, 400_000)
+        tier.pick(300_000, 20_000_000)
     }
     fn profiles() -> &'static [Profile] {
         &[Profile::Release]
@@ -1064,7 +1064,7 @@ impl Scenario for C07 {
     const ID: &'static str = "C07";
     const LEVEL: &'static str = "exploration";
     fn runs(tier: Tier) -> u64 {
-        tier.pick(2_400, 160_000)
+        tier.pick(80_000, 3_000_000)
     }
     fn profiles() -> &'static [Profile] {
         &[Profile::Dev, Profile::Release]
@@ -1339,7 +1339,7 @@ impl Scenario for C09 {
     const ID: &'static str = "C09";
     const LEVEL: &'static str = "exploration";
     fn runs(tier: Tier) -> u64 {
-        tier.pick(6_000, 400_000)
+        tier.pick(300_000, 20_000_000)
     }
     fn profiles() -> &'static [Profile] {
         &[Profile::Release]
